@@ -407,7 +407,7 @@ func init() {
 				res := &engine.JobResult{Evals: 1}
 				var c schedCase
 				if err := json.Unmarshal([]byte(job[5:]), &c); err == nil && c.Scenario.Name != "" {
-					_, obs := c.Scenario.execFn()(c.Trace)
+					obs := replayCase(&c)
 					if strings.HasPrefix(obs, "returned|err=false") || strings.HasPrefix(obs, "deadlock") {
 						res.Violate("replayed:not-refused", obs, c)
 					}
